@@ -82,6 +82,16 @@ class Ref:
         return f"<ref {self.target.qualname}>"
 
 
+class ExtRef:
+    """Reference to a name of an external (stdlib / third-party) module."""
+
+    def __init__(self, name: str):
+        self.name = name
+
+    def __repr__(self):
+        return f"<external {self.name}>"
+
+
 class Bound:
     def __init__(self, obj, func):
         self.obj = obj
@@ -109,7 +119,7 @@ class Raised(Exception):
         self.exc_name = exc_name
 
 
-ALLOWED = (int, bool, str, type(None), tuple, list, dict, set, frozenset, Sym, Obj, deque, range, ModRef, Ref, Bound)
+ALLOWED = (int, bool, str, type(None), tuple, list, dict, set, frozenset, Sym, Obj, deque, range, ModRef, Ref, Bound, ExtRef)
 
 CallHook = Callable[["Evaluator", ast.Call, Optional[str]], Any]
 NO_MATCH = object()
@@ -126,6 +136,7 @@ class Evaluator:
         module=None,
     ):
         self.repo = repo
+        self.opaque_arith = False  # if True, arithmetic on symbolic atoms yields an opaque geometry atom
         self.mod_stack: List[Any] = [module] if module is not None else []
         self._const_cache: Dict[Tuple[str, str], Any] = {}
         self.env: Dict[str, Any] = dict(env or {})
@@ -170,6 +181,20 @@ class Evaluator:
             self.env = saved
             if module is not None:
                 self.mod_stack.pop()
+
+    def _external_call(self, name: str, args: List[Any], node: ast.Call):
+        if name == "itertools.chain.from_iterable":
+            out: List[Any] = []
+            for part in self._iterate(args[0], node):
+                out.extend(self._iterate(part, node))
+            return out
+        if name in ("copy.copy", "copy.deepcopy") and isinstance(args[0], (list, dict, set, tuple, int, str)):
+            import copy as _copy
+
+            return _copy.copy(args[0]) if name == "copy.copy" else _copy.deepcopy(args[0])
+        if name == "collections.deque":
+            return deque(self._iterate(args[0], node)) if args else deque()
+        raise NotEvaluable(f"external call {name} is outside the index domain")
 
     def instantiate(self, cls, args: List[Any], kwargs: Optional[Dict[str, Any]] = None):
         """Creates a symbolic instance of a repository class by running its __init__ (or the
@@ -416,6 +441,8 @@ class Evaluator:
                     self.env = saved
                     self.mod_stack.pop()
             return self._const_cache[key]
+        if isinstance(obj, tuple) and obj[0] in ("external", "extmodule"):
+            return ExtRef(obj[1])
         raise NotEvaluable(f"unbound name {name} (module {mod.name})")
 
     def _e_Tuple(self, n):
@@ -451,11 +478,15 @@ class Evaluator:
             return not self.truth(v, n)
         if isinstance(n.op, ast.USub) and isinstance(v, int):
             return -v
+        if self.opaque_arith and isinstance(v, (Sym, float)):
+            return Sym("geom")
         if isinstance(n.op, ast.UAdd) and isinstance(v, int):
             return v
         raise NotEvaluable(f"unary op on {type(v).__name__}")
 
     def _binop(self, op, a, b, node):
+        if self.opaque_arith and (isinstance(a, (Sym, float)) or isinstance(b, (Sym, float))):
+            return Sym("geom")
         if isinstance(a, bool) or isinstance(b, bool):
             a, b = int(a) if isinstance(a, bool) else a, int(b) if isinstance(b, bool) else b
         if isinstance(a, int) and isinstance(b, int):
@@ -572,6 +603,8 @@ class Evaluator:
             return self.obj_attr(base, n.attr)
         if isinstance(base, ModRef):
             return self._module_name(base.mod, n.attr)
+        if isinstance(base, ExtRef):
+            return ExtRef(f"{base.name}.{n.attr}")
         if isinstance(base, Ref) and self.repo is not None:
             from .model import ClassInfo
 
@@ -772,6 +805,8 @@ class Evaluator:
             if isinstance(recv, Obj) and recv._cls is not None and self.repo is not None and not recv.has(meth):
                 kwargs = {kw.arg: self.eval(kw.value) for kw in n.keywords if kw.arg}
                 return self.call_method(recv, meth, args, kwargs)
+            if isinstance(recv, ExtRef):
+                return self._external_call(f"{recv.name}.{meth}", args, n)
             if isinstance(recv, (ModRef, Ref)):
                 tgt = self._e_Attribute(n.func)
                 if isinstance(tgt, Ref):
